@@ -117,6 +117,18 @@ def run(pid, tier, seed, t0):
         tag = '%s.%s.%s' % (pid, tier, st['name'])
         cases = os.path.join(core.OUT, 'cases', tag + '.ndjson')
         info = {'name': st['name']}
+        if st['kind'] == 'proof':
+            # an inductive invariant discharged by Apalache (about the design, unbounded): a failure is a machinery error
+            t1 = time.time()
+            r = core.sh('%s %s' % (os.path.join(core.SPEC, st['script']), os.path.join(core.OUT, 'apalache-' + tag)))
+            ok = r.returncode == 0 and r.stdout.count('EXITCODE: OK') == st['obligations']
+            if not ok:
+                raise core.MachineryError('Apalache did not discharge %s:\n%s' % (st['script'], r.stdout[-1500:]))
+            info.update({'tool': 'apalache-mc 0.58', 'obligations': st['obligations'], 'discharged': st['obligations'],
+                         'statement': st['statement'], 'apalache_s': round(time.time() - t1, 1)})
+            core.log('%s: Apalache discharged %d obligations of %s (%.0fs)' % (pid, st['obligations'], st['script'], time.time() - t1))
+            cov['stages'].append(info)
+            continue
         if st['kind'] == 'mc':
             cfg = st['cfg'][tier]
             extra = ''
